@@ -6,7 +6,6 @@ use std::cell::RefCell;
 use std::collections::BTreeMap;
 use std::os::unix::fs::FileExt;
 use std::path::Path;
-use std::sync::Arc;
 
 use seglog::parse::parse_record;
 use seglog::read::{ReadError, ReadHint, Reader};
@@ -101,6 +100,13 @@ pub fn plan_c17(tier: Tier, seed: u64) -> Value {
 }
 
 pub fn exec_c17(plan: &Value) -> RunOutcome {
+    set_engine_b(true);
+    let out = exec_c17_inner(plan);
+    set_engine_b(false);
+    out
+}
+
+fn exec_c17_inner(plan: &Value) -> RunOutcome {
     match plan["h"].as_u64().unwrap_or(0) {
         0 => c17::<0>(plan),
         1 => c17::<1>(plan),
@@ -634,6 +640,13 @@ pub fn plan_c18(tier: Tier, seed: u64) -> Value {
 }
 
 pub fn exec_c18(plan: &Value) -> RunOutcome {
+    set_engine_b(true);
+    let out = exec_c18_inner(plan);
+    set_engine_b(false);
+    out
+}
+
+fn exec_c18_inner(plan: &Value) -> RunOutcome {
     match plan["h"].as_u64().unwrap_or(0) {
         0 => c18::<0>(plan),
         1 => c18::<1>(plan),
@@ -642,33 +655,32 @@ pub fn exec_c18(plan: &Value) -> RunOutcome {
     }
 }
 
-/// Sim installed for C18: runs a reader operation inside the writer's intra-operation windows.
-struct WindowSim;
-
 thread_local! {
     static WINDOW: RefCell<Option<Box<dyn FnMut(&'static str, u64)>>> = const { RefCell::new(None) };
+    static ENGINE_B: RefCell<bool> = const { RefCell::new(false) };
 }
 
-impl seglog::verif::Sim for WindowSim {
-    fn point(&self, site: &'static str, _a: u64, b: u64) -> seglog::verif::Action {
-        if matches!(site, "seglog:set_len:lowered" | "fsync" | "seglog:sync:raised") {
-            let cb = WINDOW.with(|w| w.borrow_mut().take());
-            if let Some(mut cb) = cb {
-                cb(site, b);
-                WINDOW.with(|w| {
-                    let mut w = w.borrow_mut();
-                    if w.is_none() {
-                        *w = Some(cb);
-                    }
-                });
-            }
-        }
-        seglog::verif::Action::Continue
+/// Called by the installed simulator for the seglog window sites. Returns true when engine B is
+/// running on this thread (the point is then fully handled here: a reader operation may run inline).
+pub fn window_hook(site: &'static str, b: u64) -> bool {
+    if !ENGINE_B.with(|e| *e.borrow()) {
+        return false;
     }
+    let cb = WINDOW.with(|w| w.borrow_mut().take());
+    if let Some(mut cb) = cb {
+        cb(site, b);
+        WINDOW.with(|w| {
+            let mut w = w.borrow_mut();
+            if w.is_none() {
+                *w = Some(cb);
+            }
+        });
+    }
+    true
 }
 
-pub fn install_window_sim() {
-    seglog::verif::install(Arc::new(WindowSim));
+pub fn set_engine_b(on: bool) {
+    ENGINE_B.with(|e| *e.borrow_mut() = on);
 }
 
 struct C18State<const H: usize> {
